@@ -665,6 +665,29 @@ def validate_names(nodes):
             raise ModelError("'%s' is the name of a built-in type and cannot be defined" % node.name)
 
 
+
+def validate_unique_names(nodes):
+    """ One name has one definition: the same one may be seen through several includes. """
+    defined = {}
+
+    def define(name, node_, own):
+        known = defined.setdefault(name, node_)
+        if known is not node_ and (own or known != node_):
+            raise ModelError("name '%s' redefined" % name)
+
+    def visit(nodes_, own):
+        for node_ in nodes_:
+            if isinstance(node_, Include):
+                visit(node_.members, False)
+            else:
+                define(node_.name, node_, own)
+                if isinstance(node_, Enum):
+                    for member in node_.members:
+                        define(member.name, member, own)
+
+    visit(nodes, True)
+
+
 def validate_values(nodes, constants):
     """ Enumerators and union discriminators are encoded as 32-bit unsigned integers. Requires cross referenced nodes. """
     def check(what, owner, value):
@@ -756,5 +779,6 @@ class ModelParser(object):
         nodes = self.parser.parse(*parse_args)
         if self.patcher:
             self.patcher(nodes)
+        validate_unique_names(nodes)
         nodes, _ = evaluate_model(nodes, self.emit.warn)
         return nodes
